@@ -31,7 +31,7 @@ NEED_TAGS = ["esm.killswitch", "esm.execute", "esm.redeem", "liquidity.limit.dus
              "lend.borrow", "aucv2.bid.dutch", "aucv2.bid.english", "aucv2.limitbid", "liqv2.internal", "rewards.extlocker"]
 NEED_COVER = dict(gaugesDistributed=1, maxActiveFarmersInAPool=3, pairsMatched=2, feeConversions=1, lockedVaultsV2=2, bidsV2=3, swapFeeGaugeTriggers=1,
                   cancelAllMultiPair=5, multiPoolBatches=8, events=1000,
-                  dustBatches=5, multiFaultRejections=20, guardedRejections=3, longGaps=2, rerunBlocks=20)
+                  dustBatches=5, multiFaultRejections=20, acceptedListMessages=8, guardedRejections=3, longGaps=2, rerunBlocks=20)
 
 
 def time_now_uses():
